@@ -63,7 +63,18 @@ func runC14(c *fw.Ctx) {
 	if r.Intn(3) == 0 {
 		def.MaxFlush = time.Duration(2+r.Intn(10)) * time.Millisecond
 	}
-	db, err := dbh.Open(c.Dir, []dbh.TableDef{def}, dbh.Opts{VirtualTime: true})
+	// every fourth case runs under a memory cap so small that every insert forces a synchronous, *sorted*
+	// flush of what the memstore held before it (capMemorySize -> forceFlush): all flushes of such a history
+	// take the external-sort path. DB.FlushAll cannot be used there (it deadlocks with a memory cap, see
+	// DESIGN observations), so the flush steps of these histories only run the checks.
+	pressure := c.Case%4 == 3
+	opts := dbh.Opts{VirtualTime: true}
+	if pressure {
+		opts.MaxMemoryRatio = 1e-12
+		def.MaxFlush = 0
+		c.Obs("histories_under_memory_pressure", 1)
+	}
+	db, err := dbh.Open(c.Dir, []dbh.TableDef{def}, opts)
 	if err != nil {
 		c.Violate("open", "cannot open: %v", err)
 		return
@@ -118,6 +129,35 @@ func runC14(c *fw.Ctx) {
 		accepted = append(accepted, p)
 		return true
 	}
+	// (3) disk truncation, judged on a disk-only native dump
+	diskClause := func(got map[string]*dbh.Row, cells map[string]*ref.Cell, lower time.Time, data map[string]interface{}, step int) bool {
+		fl := flushesSeen()
+		for id, cell := range cells {
+			end := time.Unix(0, cell.TS)
+			if end.After(lower) {
+				continue
+			}
+			if _, seen := expiredAtFlush[id]; !seen {
+				expiredAtFlush[id] = fl
+			}
+			_, present := got[id]
+			if !present {
+				if fl-expiredAtFlush[id] >= 10 {
+					goneFromDisk[id] = true
+				}
+				continue
+			}
+			if goneFromDisk[id] {
+				c.ViolateData("c14-expired-reappears", data, "step %d: expired period ending %v (key %s) was already gone from disk and has reappeared", step, end.UTC(), cell.Key)
+				return false
+			}
+			if fl-expiredAtFlush[id] >= 11 {
+				c.ViolateData("c14-expired-not-truncated", data, "step %d: period ending %v (key %s) expired %d data-carrying flushes ago (clock - retention = %v) and is still on disk", step, end.UTC(), cell.Key, fl-expiredAtFlush[id], lower.UTC())
+				return false
+			}
+		}
+		return true
+	}
 	check := func(afterFlush bool, step int) bool {
 		if !db.WaitCaughtUp(quiesceTimeout) {
 			c.Inconclusive("ingestion did not catch up")
@@ -134,7 +174,7 @@ func runC14(c *fw.Ctx) {
 		data := map[string]interface{}{"table": t.SQL(), "retention": retention.String(), "clock": now.Format(time.RFC3339Nano), "step": step, "history": history}
 		// (1) storage
 		modes := []bool{true}
-		if afterFlush {
+		if afterFlush && !pressure {
 			modes = append(modes, false)
 		}
 		for _, mem := range modes {
@@ -194,34 +234,24 @@ func runC14(c *fw.Ctx) {
 			}
 			c.Obs("storage_checks", 1)
 			if !mem {
-				// (3) disk truncation
-				fl := flushesSeen()
-				for id, cell := range cells {
-					end := time.Unix(0, cell.TS)
-					if end.After(lower) {
-						continue
-					}
-					if _, seen := expiredAtFlush[id]; !seen {
-						expiredAtFlush[id] = fl
-					}
-					_, present := got[id]
-					if !present {
-						if fl-expiredAtFlush[id] >= 10 {
-							goneFromDisk[id] = true
-						}
-						continue
-					}
-					if goneFromDisk[id] {
-						c.ViolateData("c14-expired-reappears", data, "step %d: expired period ending %v (key %s) was already gone from disk and has reappeared", step, end.UTC(), cell.Key)
-						return false
-					}
-					if fl-expiredAtFlush[id] >= 11 {
-						c.ViolateData("c14-expired-not-truncated", data, "step %d: period ending %v (key %s) expired %d data-carrying flushes ago (clock - retention = %v) and is still on disk", step, end.UTC(), cell.Key, fl-expiredAtFlush[id], lower.UTC())
-						return false
-					}
+				if !diskClause(got, cells, lower, data, step) {
+					return false
 				}
 				c.Obs("disk_checks", 1)
 			}
+		}
+		if pressure && afterFlush {
+			// the newest point is still in memory, so only clause (3) is judged on the disk-only dump
+			dump := db.Query("SELECT * FROM t", false)
+			if dump.Failed() {
+				c.ViolateData("c14-query-error", data, "disk-only native dump failed: %s", dump.ErrString())
+				return false
+			}
+			got, _ := dump.Index()
+			if !diskClause(got, cells, lower, data, step) {
+				return false
+			}
+			c.Obs("disk_checks_under_pressure", 1)
 		}
 		// (2) grouped and time-ranged queries
 		limit := lower.Add(-res)
@@ -301,6 +331,13 @@ func runC14(c *fw.Ctx) {
 				c.Inconclusive("ingestion did not catch up")
 				return
 			}
+			if pressure {
+				note(fmt.Sprintf("step %d: checks (every insert has forced a sorted flush)", step))
+				if !check(true, step) {
+					return
+				}
+				continue
+			}
 			db.FlushAll()
 			flushCount++
 			note(fmt.Sprintf("step %d: FlushAll", step))
@@ -323,7 +360,9 @@ func runC14(c *fw.Ctx) {
 	}
 	if !c.Violated() {
 		db.WaitCaughtUp(quiesceTimeout)
-		db.FlushAll()
+		if !pressure {
+			db.FlushAll()
+		}
 		check(true, steps)
 	}
 	c.Obs("points_rejected_as_too_old", int64(rejected))
